@@ -106,11 +106,11 @@ Definition on_ack (v5 : bool) (w : writer) (a : ack) : writer :=
       else w
   | APubrec id err =>
       let o := del_out id (pubout w) in
-      if v5 && err
-      then (if in_out id (pubout w)                     (* a refusal of something that is not outstanding frees nothing *)
+      if in_out id (pubout w)             (* a PUBREC for something that is not outstanding frees nothing and starts nothing *)
+      then (if v5 && err
             then wr_set w (release (fl w) id) (q0 w) (q12 w) (qrel w) o
-            else w)
-      else wr_set w (fl w) (q0 w) (q12 w) (qrel w ++ [mk_pubrel id]) o
+            else wr_set w (fl w) (q0 w) (q12 w) (qrel w ++ [mk_pubrel id]) o)
+      else w
   end.
 
 (* ---- close: getQueuedPackets + PacketsStore (appends) ---- *)
